@@ -155,6 +155,150 @@ def check_meta_removed(ctx):
     finish(ctx, ob, bad, 'remove_keyspace/meta-not-removed')
 
 
+def check_recover_keyspaces(ctx):
+    """recover_keyspaces over a symbolic keyspaces folder with 2 entries"""
+    pat = r'^recover_keyspaces$|^recovery::recover_keyspaces$'
+    ob = ctx.ob('recover/keyspaces-by-id', 'recover_keyspaces: every directory whose id resolves is recovered under exactly that id, the name stored for that id and its own folder; '
+                'unreferenced directories are removed, not recovered; afterwards the id counter is above every recovered id', [pat])
+    from ..contract import mk_seq
+    N = 2
+    ids = [z3.BitVec(f'dir{i}.id', 64) for i in range(N)]
+
+    def ov_read_dir(ex_, st, call):
+        ents = []
+        for i in range(N):
+            d = Obj('std::fs::DirEntry', f'dirent{i}', 'opaque'); d.data['idx'] = i
+            ents.append(ex_.mk_enum('Result<DirEntry, io::Error>', 'Ok', [d]))
+        st.pc.append(ids[0] != ids[1])
+        for x in ids:
+            st.pc.append(z3.ULT(x, bv(2 ** 62)))
+        return ex_.mk_enum(call.dst_ty, 'Ok', [mk_seq('std::fs::ReadDir', ents, 'read_dir')])
+
+    def idx_of(v):
+        v = deref(v)
+        seen = 0
+        while isinstance(v, Obj) and 'idx' not in v.data and 'of' in v.data and seen < 6:
+            v = v.data['of']; seen += 1
+        return v.data.get('idx') if isinstance(v, Obj) else None
+
+    def derived(name, ty):
+        def f(ex_, st, call):
+            src = deref(call.args[0])
+            o = Obj(ty, f'{name}({getattr(src, "name", "?")})', 'opaque'); o.data['of'] = src
+            if isinstance(src, Obj) and 'idx' in src.data:
+                o.data['idx'] = src.data['idx']
+            return o
+        return f
+
+    def ov_to_string(ex_, st, call):
+        o = Obj('std::string::String', 'id_string', 'str'); o.data['of_value'] = deref(call.args[0])
+        return o
+
+    def ov_to_str(ex_, st, call):
+        src = deref(call.args[0])
+        o = Obj('str', f'str({getattr(src, "name", "?")})', 'str'); o.data['idx'] = idx_of(src)
+        return ex_.mk_enum(call.dst_ty, 'Some', [Ref(Cell(o))])
+
+    def ov_parse(ex_, st, call):
+        i = idx_of(call.args[0])
+        if i is None:
+            return NotImplemented
+        return ex_.mk_enum(call.dst_ty, 'Ok', [ids[i]])
+
+    def ov_file_type(ex_, st, call):
+        o = Obj('std::fs::FileType', 'ft', 'opaque'); o.data['idx'] = idx_of(call.args[0])
+        return ex_.mk_enum(call.dst_ty, 'Ok', [o])
+
+    def ov_is_file(ex_, st, call):
+        return z3.Bool(f'dir{idx_of(call.args[0])}.is_file')
+
+    def ov_resolve(ex_, st, call):
+        kid = call.args[1]
+        j = None
+        for i in range(N):
+            if not ex_.feasible(st.pc, kid != ids[i]):
+                j = i
+        nm = Obj('byteview::StrView', f'stored_name{j}', 'str')
+        e = EnumV('Option<StrView>', z3.If(z3.Bool(f'dir{j}.resolves'), bv(1), bv(0)), 'resolved')
+        o = Obj('Some', 'Some', 'variant'); o.fields[0] = Cell(nm); e.payloads['Some'] = o
+        st.emit(Ev_('RESOLVE', args={'id': kid, 'idx': j}, site=call.site))
+        return ex_.mk_enum(call.dst_ty, 'Ok', [e])
+
+    def ov_exists(ex_, st, call):
+        return ex_.mk_enum(call.dst_ty, 'Ok', [z3.Bool(f'marker!{next(st.fresh)}')])
+
+    def ov_open(ex_, st, call):
+        t = Obj('lsm_tree::AnyTree', f'tree!{next(st.fresh)}', 'opaque')
+        st.emit(Ev_('TREE_OPEN', obj=t, args={'config': deref(call.args[0])}, site=call.site))
+        return ex_.mk_enum(call.dst_ty, 'Ok', [t])
+    from ..symex import Ev as Ev_
+    ex, paths = ctx.run(pat, cache_key='c12.recover_keyspaces', loop_bound=N + 1,
+                        no_inline=[r'CreateOptions::from_kvs$', r'apply_to_base_config$', r'Keyspace::from_database$'],
+                        overrides=[(r'^(std::fs::)?read_dir$', ov_read_dir), (r'MetaKeyspace::resolve_id$', ov_resolve), (r'str::parse$|core::str::<impl str>::parse$', ov_parse),
+                                   (r'DirEntry::file_type$', ov_file_type), (r'FileType::is_file$', ov_is_file), (r'Path::try_exists$', ov_exists),
+                                   (r'DirEntry::path$', derived('path', 'std::path::PathBuf')), (r'DirEntry::file_name$', derived('file_name', 'std::ffi::OsString')),
+                                   (r'<OsString as Deref>::deref$', derived('os_str', 'std::ffi::OsStr')), (r'<u64 as ToString>::to_string$', ov_to_string),
+                                   (r'OsStr::to_str$|OsString::to_str$', ov_to_str), (r'lsm_tree::Config::open$', ov_open)])
+    bad = []
+    for p in paths:
+        if p.status != 'returned' or ctx.sat(p.pc + [ret_is_ok(p)], ob)[0] != z3.sat:
+            continue
+        ob.reach += 1
+        made = [e for e in p.events if e.kind == 'CALL' and e.args.get('callee', '').endswith('Keyspace::from_database')]
+        sets = [e for e in p.events if e.kind == 'CTR_SET']
+        ins = [e for e in p.events if e.kind == 'MAP_INSERT']
+        rms = [e for e in p.events if e.kind in ('FS_REMOVE_DIR_ALL',) or (e.kind == 'CALL' and 'remove_dir_all' in e.args.get('callee', ''))]
+        res = [e for e in p.events if e.kind == 'RESOLVE']
+        problem = None
+        recovered_ids = []
+        for me in made:
+            a = me.args['args']          # (keyspace_id, db, tree, name, config)
+            kid, name = a[0], deref(a[3])
+            j = None
+            for i in range(N):
+                if z3.is_expr(kid) and ctx.sat(p.pc + [kid != ids[i]], ob)[0] == z3.unsat:
+                    j = i
+            if j is None:
+                problem = 'a keyspace is recovered under an id that is not the id of its directory'; break
+            recovered_ids.append(ids[j])
+            if not isinstance(name, Obj) or name.name.rstrip("'") != f'stored_name{j}':
+                problem = f'the keyspace of directory {j} is recovered under a name ({getattr(name, "name", name)}) that is not the one stored for its id'; break
+            if ctx.sat(p.pc + [z3.Not(z3.Bool(f'dir{j}.resolves'))], ob)[0] == z3.sat:
+                problem = f'directory {j} is recovered although its id may not resolve to a name (deleted keyspace)'; break
+            if ctx.sat(p.pc + [ids[j] == 0], ob)[0] == z3.sat:
+                problem = 'the meta keyspace (id 0) is recovered as a user keyspace'; break
+            # the tree is opened in <keyspaces folder>/<id>
+            cfg = [e for e in p.events if e.kind == 'CALL' and e.args.get('callee', '').endswith('lsm_tree::Config::new') and e.idx < me.idx]
+            joins = {getattr(e.res, 'uid', None): e for e in p.events if e.kind == 'CALL' and e.args.get('callee', '').endswith('Path::join')}
+            pj = joins.get(getattr(deref(cfg[-1].args['args'][0]), 'uid', -1)) if cfg else None
+            leaf = deref(pj.args['args'][1]) if pj is not None else None
+            lv = leaf.data.get('of_value') if isinstance(leaf, Obj) else None
+            if lv is None or not z3.is_expr(lv) or ctx.sat(p.pc + [lv != ids[j]], ob)[0] != z3.unsat:
+                problem = f'the tree of the keyspace with id of directory {j} is not opened in the folder named after that id'; break
+        if problem is None:
+            # every resolvable, initialised directory must have been recovered (the path condition decides which are)
+            for j in range(N):
+                must = [z3.Not(z3.Bool(f'dir{j}.is_file')), ids[j] != 0, z3.Bool(f'dir{j}.resolves')]
+                if ctx.sat(p.pc + must, ob)[0] == z3.sat:
+                    got = any(ctx.sat(p.pc + [x != ids[j]], ob)[0] == z3.unsat for x in recovered_ids)
+                    marker_missing = bool(rms)
+                    if not got and not marker_missing:
+                        problem = f'directory {j} resolves to a stored name but is not recovered'; break
+        if problem is None:
+            if not sets:
+                problem = 'the keyspace id counter is not restored'
+            else:
+                K = sets[-1].args['val']
+                for x in recovered_ids:
+                    if ctx.sat(p.pc + [z3.Not(z3.UGT(K, x))], ob)[0] != z3.unsat:
+                        problem = 'after recovery the keyspace id counter can be ≤ the id of a recovered keyspace: the next new keyspace gets the id (and directory, journal records) of an existing one'; break
+        if problem is None and len(ins) != len(made):
+            problem = f'{len(made)} keyspaces recovered but {len(ins)} registered in the keyspace dictionary'
+        if problem:
+            bad.append((p, problem))
+    finish(ctx, ob, bad, 'recover_keyspaces/wrong-id-name-or-counter')
+
+
 def check_recover(ctx):
     ex, paths, env = analyse(ctx)
     o1 = ctx.ob('replay/unresolvable', 'recover: a journal record whose keyspace id does not resolve is applied to no tree; a resolvable one only to its own keyspace\'s tree', ['db::<impl>::recover'])
@@ -259,6 +403,7 @@ def run(ctx):
     check_deleted(ctx)
     check_delete_order(ctx)
     check_meta_removed(ctx)
+    check_recover_keyspaces(ctx)
     check_recover(ctx)
     for o in ctx.obligations:
         ctx.samples.append(o.as_dict())
